@@ -31,6 +31,23 @@ def _expect(node, text, what):
         raise TranslateError(f'{what}: expected `{text}`, found `{t2.src(node)[:160]}`')
 
 
+def _expect_aout(node, what):
+    """the working copy: `Aout = A if overwrite else A.copy()` or the CSR-converting form (non-CSR input is converted)"""
+    s = t2.src(node)
+    ok = ['Aout = A if overwrite else A.copy()',
+          "if overwrite and A.format == 'csr':\n    Aout = A\nelse:\n    Aout = A.tocsr(copy=True)"]
+    if s not in ok:
+        raise TranslateError(f'{what}: working copy of A: `{s[:160]}`')
+    return ok.index(s)
+
+
+def _expect_any(node, texts, what):
+    s = t2.src(node)
+    if s not in texts:
+        raise TranslateError(f'{what}: expected one of {texts!r}, found `{s[:160]}`')
+    return texts.index(s)
+
+
 # ------------------------------------------------------------------------------------ 1. index arithmetic
 
 class IdxTr:
@@ -162,7 +179,7 @@ def translate_enforce(fn):
     if [a.arg for a in fn.args.args] != ['A', 'b', 'x', 'I', 'D', 'diag', 'overwrite']:
         raise TranslateError('enforce signature: ' + repr([a.arg for a in fn.args.args]))
     _expect(body[0], 'b, x, I, D = _init_bc(A, b, x, I, D)', 'enforce[0]')
-    _expect(body[1], 'Aout = A if overwrite else A.copy()', 'enforce[1]')
+    _expect_aout(body[1], 'enforce[1]')
     # the index arithmetic: everything up to  Aout.data[<name>] = 0.0
     k = 2
     tr = IdxTr({'Aout.indptr': ('indptr', 'arr'), 'D': ('D', 'arr')})
@@ -465,19 +482,20 @@ def translate_solve(tree):
     lin = t2.find_def(tree, 'solve_linear')
     blk = t2.only([s for s in _body(lin) if isinstance(s, ast.If) and t2.src(s.test) == 'x is not None and I is not None'],
                   'solve_linear expansion block')
-    if len(blk.body) != 3:
-        raise TranslateError('solve_linear expansion block')
-    _expect(blk.body[0], 'y = x.copy()', 'solve_linear copy')
-    _expect(blk.body[2], 'return y', 'solve_linear return')
-    br = blk.body[1]
-    if not (isinstance(br, ast.If) and t2.src(br.test) == 'isinstance(I, tuple)' and len(br.orelse) == 1):
+    srcs = [t2.src(s) for s in blk.body]
+    if len(srcs) == 3 and srcs[0] == 'y = x.copy()':
+        sol, br = 'solver(A, b, **kwargs)', blk.body[1]
+    elif len(srcs) == 4 and srcs[0] == 'sol = solver(A, b, **kwargs)' and srcs[1] == 'y = x.astype(np.result_type(x, sol))':
+        sol, br = 'sol', blk.body[2]                # the copy is allocated with the dtype of the result
+    else:
+        raise TranslateError('solve_linear expansion block: ' + repr(srcs)[:300])
+    _expect(blk.body[-1], 'return y', 'solve_linear return')
+    if not (isinstance(br, ast.If) and t2.src(br.test) == 'isinstance(I, tuple)' and len(br.orelse) == 1 and len(br.body) == 1):
         raise TranslateError('solve_linear branch')
-    st = br.orelse[0]
-    if not (isinstance(st, ast.Assign) and t2.src(st.targets[0]) == 'y[I]'
-            and t2.src(st.value) == 'solver(A, b, **kwargs)'):
-        raise TranslateError('solve_linear assignment: ' + t2.src(st))
+    _expect(br.body[0], f'np.add.at(y, I[0], I[1]({sol}))', 'solve_linear tuple branch')
+    _expect(br.orelse[0], f'y[I] = {sol}', 'solve_linear assignment')
     tr = MvTr({'x': ('x', 'vec'), 'I': ('I', 'idx'), 'z': ('z', 'vec')})
-    tr.stmt(blk.body[0])
+    tr.stmt(ast.parse('y = x.copy()').body[0])
     tr.stmt(ast.parse('y[I] = z').body[0])
     lin_def = f'Definition gen_expand (x : vec) (I : list nat) (z : vec) : vec :=\n  {tr.close(tr.env["y"][0])}.'
     eig = t2.find_def(tree, 'solve_eigen')
@@ -486,10 +504,12 @@ def translate_solve(tree):
     if len(blk.body) != 4:
         raise TranslateError('solve_eigen expansion block')
     _expect(blk.body[0], 'L, X = solver(A, M, **kwargs)', 'solve_eigen solve')
-    _expect(blk.body[1], 'y = np.tile(x.copy()[:, None], (1, X.shape[1]))', 'solve_eigen tile')
+    _expect_any(blk.body[1], ['y = np.tile(x.copy()[:, None], (1, X.shape[1]))',
+                              'y = np.tile(x.astype(np.result_type(x, X))[:, None], (1, X.shape[1]))'], 'solve_eigen tile')
     br = blk.body[2]
-    if not (isinstance(br, ast.If) and t2.src(br.test) == 'isinstance(I, tuple)' and len(br.orelse) == 1):
+    if not (isinstance(br, ast.If) and t2.src(br.test) == 'isinstance(I, tuple)' and len(br.orelse) == 1 and len(br.body) == 1):
         raise TranslateError('solve_eigen branch')
+    _expect(br.body[0], 'np.add.at(y, I[0], np.array([I[1](x) for x in X.T]).T)', 'solve_eigen tuple branch')
     _expect(br.orelse[0], 'y[I] = X', 'solve_eigen assignment')
     _expect(blk.body[3], 'return (L, y)', 'solve_eigen return')
     eig_def = ('Definition gen_expand_eig (x : vec) (I : list nat) (X : list vec) : list vec :=\n'
@@ -502,7 +522,7 @@ def translate_penalize(fn):
     if [a.arg for a in fn.args.args] != ['A', 'b', 'x', 'I', 'D', 'epsilon', 'overwrite']:
         raise TranslateError('penalize signature')
     _expect(body[0], 'b, x, I, D = _init_bc(A, b, x, I, D)', 'penalize[0]')
-    _expect(body[1], 'Aout = A if overwrite else A.copy()', 'penalize[1]')
+    _expect_aout(body[1], 'penalize[1]')
     _expect(body[2], 'd = Aout.diagonal()', 'penalize[2]')
     # the default penalty parameter: any block that only computes local scalars and binds epsilon (its VALUE is a runtime
     # matter checked by the oracle; the model is parametrised by w = 1/epsilon)
@@ -552,7 +572,13 @@ def translate_flatten_dofs(fn):
         br = br.orelse[0] if len(br.orelse) == 1 else None
     if [x[0] for x in tests] != ['isinstance(S, ndarray)', 'isinstance(S, DofsView)', 'isinstance(S, dict)']:
         raise TranslateError('_flatten_dofs branches ' + repr([x[0] for x in tests]))
-    _expect(tests[0][1][0], 'return S', '_flatten_dofs ndarray')
+    arr = [t2.src(s) for s in tests[0][1] if not (isinstance(s, ast.Expr) and isinstance(s.value, ast.Constant))]
+    if arr == ['return S']:
+        flat = 'S'                                   # repeated indices are kept
+    elif arr == ['_, ix = np.unique(S, return_index=True)', 'return S[np.sort(ix)]']:
+        flat = 'dedup_first S'                       # first occurrences, original order
+    else:
+        raise TranslateError('_flatten_dofs ndarray branch: ' + repr(arr))
     _expect(tests[1][1][0], 'return S.flatten()', '_flatten_dofs view')
     d = tests[2][1]
     if len(d) != 2 or not isinstance(d[0], ast.FunctionDef):
@@ -563,7 +589,8 @@ def translate_flatten_dofs(fn):
     if not isinstance(body[2], ast.Raise):
         raise TranslateError('_flatten_dofs fallthrough')
     return ('Definition gen_flatten_dict (views : list (list nat)) : list nat := sort_unique (concat views).'
-            '   (* np.unique(np.concatenate([...])) *)')
+            '   (* np.unique(np.concatenate([...])) *)\n'
+            f'Definition gen_flatten_array (S : list nat) : list nat := {flat}.   (* _flatten_dofs on an index array *)')
 
 
 def translate_mpc(tree):
@@ -609,13 +636,6 @@ def translate_mpc(tree):
     ex, te = MvTr(envl).expr(lam.body)
     if (tp, te) != ('idx', 'vec'):
         raise TranslateError('mpc: types of permutation / expansion')
-    # the tuple branches of solve_linear / solve_eigen
-    lin = t2.find_def(tree, 'solve_linear')
-    blk = t2.only([s for s in _body(lin) if isinstance(s, ast.If) and t2.src(s.test) == 'x is not None and I is not None'], 'solve_linear block')
-    _expect(blk.body[1].body[0], 'np.add.at(y, I[0], I[1](solver(A, b, **kwargs)))', 'solve_linear tuple branch')
-    eig = t2.find_def(tree, 'solve_eigen')
-    blk = t2.only([s for s in _body(eig) if isinstance(s, ast.If) and t2.src(s.test) == 'x is not None and I is not None'], 'solve_eigen block')
-    _expect(blk.body[2].body[0], 'np.add.at(y, I[0], np.array([I[1](x) for x in X.T]).T)', 'solve_eigen tuple branch')
     return ['Definition gen_mpc_U (n : nat) (M S : list nat) : list nat := complement n (M ++ S).',
             f'Definition gen_mpc_B (A T : mat) (U M S : list nat) : mat :=\n  {Bt}.',
             f'Definition gen_mpc_y (A : mat) (b g : vec) (U M S : list nat) : vec :=\n  {yt}.',
@@ -640,7 +660,7 @@ def translate():
     return f'''(* GENERATED by vlib/c05_tr.py from {SRC} — do not edit *)
 From Coq Require Import List ZArith.
 Import ListNotations.
-Require Import Base.C05_Np Model.C05_BC Model.C05_MPC.
+Require Import Base.C05_Np Model.C05_BC Model.C05_MPC Model.C05_Ext.
 
 (* enforce: "set rows on lhs to zero" — positions of the stored values to be zeroed *)
 {idx_def}
